@@ -168,6 +168,7 @@ static void abar(void) {
     memset(live, 0, sizeof(live));
     arrived = go = 0;
     S = aws_small_block_allocator_new(parent, true);
+    size_t res_fresh = aws_small_block_allocator_bytes_reserved(S); /* pages an eager implementation holds from the start */
     pthread_t th[2];
     for (int i = 0; i < 2; ++i) pthread_create(&th[i], NULL, tb, (void *)(intptr_t)i);
     pthread_mutex_lock(&bm);
@@ -175,7 +176,7 @@ static void abar(void) {
     pthread_mutex_unlock(&bm);
     size_t act = aws_small_block_allocator_bytes_active(S), res = aws_small_block_allocator_bytes_reserved(S), page = aws_small_block_allocator_page_size(S);
     VS_CHECK(act == 32 + 32 + 512 + 512, "bytes-active-at-barrier", "two 32-class and two 512-class blocks are live and nobody is inside the allocator, bytes_active=%zu (expected 1088)", act);
-    VS_CHECK(res >= act && res % page == 0 && res <= 4 * page, "bytes-reserved-at-barrier", "bytes_reserved=%zu with bytes_active=%zu (page %zu)", res, act, page);
+    VS_CHECK(res >= act && res % page == 0 && res <= res_fresh + 4 * page, "bytes-reserved-at-barrier", "bytes_reserved=%zu with bytes_active=%zu (page %zu, a fresh allocator holds %zu)", res, act, page, res_fresh);
     pthread_mutex_lock(&bm);
     go = 1;
     pthread_cond_broadcast(&bc);
